@@ -375,14 +375,14 @@ Arguments s_rib {E}. Arguments s_llgr {E}. Arguments s_nbr {E}.
                      see (its own address, split-horizon and RS-isolation victims)
      pol llgr _ p := None when the token is one the export policy rejects,
                      Some (token, llgr) otherwise. *)
-Definition CE := (N * N)%type.
+Definition CE := (N * N * N)%type.   (* (source, token, LLGR_STALE marker) *)
 
 Record cfg := { g_keying : keying; g_limited : bool; g_max : N; g_aptx : bool;
                 g_hidden : list N; g_rej : list N }.
 
 Definition cvis (g : cfg) (p : path) : bool := negb (memN (p_src p) (g_hidden g)).
 Definition cpol (g : cfg) (llgr : bool) (net : N) (p : path) : option CE :=
-  if memN (p_tok p) (g_rej g) then None else Some (p_tok p, if llgr then 1 else 0).
+  if memN (p_tok p) (g_rej g) then None else Some (p_src p, p_tok p, if llgr then 1 else 0).
 
 Definition cstep (g : cfg) : state CE -> label -> state CE :=
   step CE (g_keying g) (g_limited g) (g_max g) (g_aptx g) (cvis g) (cpol g).
@@ -404,7 +404,8 @@ Definition sort_rows (l : list (list N)) : list (list N) := fold_right ins_sorte
 
 Definition v_rows (l : list (list N)) : val := VL (map VNs (sort_rows l)).
 
-Definition row_kv (x : key * CE) : list N := [fst (fst x); snd (fst x); fst (snd x); snd (snd x)].
+Definition row_kv (x : key * CE) : list N :=
+  [fst (fst x); snd (fst x); fst (fst (snd x)); snd (fst (snd x)); snd (snd x)].
 Definition row_k (k : key) : list N := [fst k; snd k].
 
 Definition fresh_of (g : cfg) (s : state CE) : list (key * CE) :=
